@@ -18,6 +18,9 @@ pub enum Op10
     Prepare(u8),
     Clone(u8),
     Drop(u8),
+    /// Drop one clone while the thread is unwinding from a panic (the clone is owned by a closure that panics; the
+    /// panic is caught).
+    DropUnwinding(u8),
     Gc,
     ManualDespawn(u8),
     /// Make `.0` a child of `.1`.
@@ -80,7 +83,7 @@ impl Model10
             // one signal per entity (two independent signals for one entity are not covered by the statement)
             if !self.prepared[i] && self.alive[i] && total < MAX_CLONES { v.push(Op10::Prepare(e)); }
             if self.clones[i] > 0 && total < MAX_CLONES { v.push(Op10::Clone(e)); }
-            if self.clones[i] > 0 { v.push(Op10::Drop(e)); }
+            if self.clones[i] > 0 { v.push(Op10::Drop(e)); v.push(Op10::DropUnwinding(e)); }
             if self.alive[i] { v.push(Op10::ManualDespawn(e)); }
             for p in 0..N_ENTS as u8
             {
@@ -105,7 +108,7 @@ impl Model10
         {
             Op10::Prepare(e) => { self.prepared[e as usize] = true; self.clones[e as usize] = 1; }
             Op10::Clone(e) => { self.clones[e as usize] += 1; }
-            Op10::Drop(e) =>
+            Op10::Drop(e) | Op10::DropUnwinding(e) =>
             {
                 let i = e as usize;
                 self.clones[i] -= 1;
@@ -166,6 +169,12 @@ pub fn run10(hist: &[Op10]) -> StepResult<Key10>
             }
             Op10::Clone(e) => { let c = signals[e as usize][0].clone(); signals[e as usize].push(c); }
             Op10::Drop(e) => { signals[e as usize].pop(); }
+            Op10::DropUnwinding(e) =>
+            {
+                let sig = signals[e as usize].pop();
+                let r = std::panic::catch_unwind(std::panic::AssertUnwindSafe(move || { let _owned = sig; panic!("harness: unwinding drop"); }));
+                assert!(r.is_err());
+            }
             Op10::Gc => { garbage_collect_entities(world); }
             Op10::ManualDespawn(e) => { world.despawn(ents[e as usize]); }
             Op10::Reparent(e, p) => { world.entity_mut(ents[p as usize]).add_child(ents[e as usize]); }
